@@ -5,10 +5,13 @@ package csblob
 import (
 	"bytes"
 	"crypto"
+	"errors"
 	_ "crypto/sha1"
 	"crypto/sha256"
 	_ "crypto/sha512"
 	"io"
+
+	ber "github.com/go-asn1-ber/asn1-ber"
 )
 
 // H11.csblob-a: parseSuper on an arbitrary blob (an embedded code signature
@@ -254,5 +257,63 @@ func vhRequirementFormat(expr []byte) {
 		vhReach("formatted") // vh:require formatted
 	} else {
 		vhReach("rejected") // vh:require rejected
+	}
+}
+
+// H11.csblob-v: csblob.Verify (Mach-O and DMG verification) on a signature
+// super blob of arbitrary composition: 0..2 items whose slot types are drawn
+// from code directory / alternate directory / requirements / entitlements /
+// CMS wrapper / ticket / unknown, with 0..9 arbitrary payload bytes each (so
+// items shorter than their own header occur). An error or a result - no
+// panic when there is no code directory at all, when the CMS wrapper is
+// empty, when an unknown item is shorter than the 8 bytes the report prints.
+func VH_C11_CSVerifyBlob() {
+	// vh:stubbed
+	// BER re-encoding of a CMS payload is outside this encoding: the decoder refuses
+	vhStub("github.com/go-asn1-ber/asn1-ber.DecodePacketErr", func(data []byte) (*ber.Packet, error) {
+		return nil, errors.New("ber: not decoded")
+	})
+	types := []uint32{cdCodeDirectorySlot, cdAlternateCodeDirectorySlots, cdRequirementsSlot, cdEntitlementSlot, cdSignatureSlot, cdTicketSlot, 0x7777}
+	n := vhConcretize(vhInt("items", 0, 2), 3)
+	var items []superItem
+	for i := 0; i < n; i++ {
+		t := types[vhConcretize(vhInt("slot-type", 0, len(types)-1), 8)]
+		var ln int
+		if vhTier() > 0 {
+			ln = vhConcretize(vhInt("item-bytes", 0, 9), 10)
+		} else {
+			ln = []int{0, 7, 8, 9}[vhConcretize(vhInt("item-bytes-idx", 0, 3), 4)]
+		}
+		d := vhBytes("item", ln)
+		if t == cdSignatureSlot && ln > 8 {
+			ln = 8 // an empty wrapper; BER decoding of the CMS payload is outside this encoding
+			d = d[:8]
+		}
+		if t == cdCodeDirectorySlot || t == cdAlternateCodeDirectorySlots {
+			// directories themselves are the subject of VH_C11_CSCodeDirectory
+			vhAssume(ln <= 8)
+		}
+		if ln >= 8 {
+			// the item's own length word is consistent (parseSuper slices by it)
+			vhAssume(d[4] == 0 && d[5] == 0 && d[6] == 0 && int(d[7]) <= ln)
+		}
+		items = append(items, superItem{itype: t, data: d})
+	}
+	blob := marshalSuperBlob(csEmbeddedSignature, items)
+	vhMaxLen(256)
+	vhLoopBound(len(blob) + 64)
+	vhAllocLimit(4<<20 + 16*len(blob))
+	sig, err := Verify(blob, VerifyParams{})
+	if err == nil {
+		vhAssert(sig != nil && len(sig.Blob.Directories) > 0, "a-verified-signature-has-a-code-directory")
+		vhReach("accepted")
+	} else {
+		vhReach("rejected") // vh:require rejected
+	}
+	// what the verify command prints for items it does not know
+	if parsed, perr := parseSignature(blob); perr == nil {
+		for _, unk := range parsed.Unknowns {
+			vhAssert(len(unk) >= 8, "unknown-items-are-at-least-a-header-long")
+		}
 	}
 }
